@@ -20,7 +20,7 @@ def run(chk):
     n = 12000 if thorough else 1500
     progs, texts, ops, budgets = [], [], [], []
     for i in range(n):
-        p = gen_isa.gen_prog(rng, banks=(rng.random() < 0.35), prodref=True)
+        p = gen_isa.gen_prog(rng, banks=(rng.random() < 0.35), prodref=True, subs=True)
         order = list(range(len(p.rules)))
         blocks = rng.choice([1, 1, 2, 3])
         if blocks > 1:
